@@ -30,6 +30,8 @@ type Obligation struct {
 	Size   int
 	entry  *entryInfo
 	results []Val
+	text   string
+	DefFact map[string]bool // premises that are definitional unfoldings of rec spec functions (may be dropped in a portfolio attempt)
 }
 
 type entryInfo struct {
@@ -115,6 +117,7 @@ type State struct {
 	cs      []critSection
 	dead    bool
 	touched map[string]bool // heaps written since entry (for frame checking)
+	defFact map[string]bool // keys of definitional-instance facts
 }
 
 type critSection struct {
@@ -140,6 +143,7 @@ func (s *State) clone() *State {
 		locks: make(map[string]string, len(s.locks)),
 		cs:    append([]critSection(nil), s.cs...),
 		touched: make(map[string]bool, len(s.touched)),
+		defFact: s.defFact,
 	}
 	for k, v := range s.cellv {
 		n.cellv[k] = v
@@ -524,7 +528,7 @@ func (e *Engine) oblige(st *State, kind, label string, ord int, goal *Term, clau
 		tr = append(tr, fmt.Sprint(b))
 	}
 	ob := &Obligation{Name: name, Func: e.curFn, Kind: kind, Clause: clause,
-		Premises: append([]*Term(nil), st.facts...), Goal: goal, Path: strings.Join(tr, ">"), entry: e.curEntry}
+		Premises: append([]*Term(nil), st.facts...), Goal: goal, Path: strings.Join(tr, ">"), entry: e.curEntry, DefFact: st.defFact}
 	_ = fr
 	if pos.IsValid() {
 		ob.Pos = e.Fset.Position(pos)
